@@ -36,7 +36,7 @@ Proof. exact Proofs.verify_init_sound. Qed.
       entered with (nothing for global/eval code: RunProgram and eval assume vm.sp is back at its entry
       value), no stack locals and no try frame ... *)
 Theorem done_end_shape : forall code md ch st, md <> MFunc -> step code md ch st = Done ->
-  pc st = length code /\ cx st = aux0 /\ segs st = a_segs (init_state md) /\ frames st = [].
+  pc st = length code /\ norm (cx st) = aux0 /\ segs st = a_segs (init_state md) /\ frames st = [].
 Proof. exact Proofs.done_end_shape. Qed.
 
 (* ... and a function returns through ret with exactly its `this` slot, the stack locals of the blocks that
